@@ -9,6 +9,8 @@ import GsModel.Schema.Valid
     instance none of whose object members is an explicit zero value ("", 0, false).  So outside those instances the generated
     validator has exactly one admissible answer — `valid` — and the check holds it to that answer.
   * `noZeroProps_sound` — the executable test the driver uses for that condition is sound.
+  * `validG_mono`, `sandwich` — the readings are ordered: validAll → valid → validAny and validAll → validSkip → validAny for
+    EVERY schema, definitions, fuel and instance; `readings_agree_without_zero`: all four coincide without explicit zeros.
   * `zero_of_optional_may_be_skipped`, `zero_of_required_readonly_may_be_missing` — the gap is real (both directions).
   * `required_missing_invalid`, `wrong_type_invalid`, `null_needs_nullable` — sanity of the reference semantics.
   The tie to the generated code is behavioural: compiled generated models are run on (schema, instance) pairs and must
@@ -192,5 +194,137 @@ theorem property_counts :
     valid [] 5 cntS (.obj []) = false ∧ valid [] 5 cntS (.obj [("a", .str "x")]) = true ∧
     valid [] 5 cntS (.obj [("a", .str "x"), ("flag", .bool true), ("n", .num 1000)]) = false ∧
     valid [] 5 cntS (.obj [("flag", .bool false)]) = true ∧ validSkip [] 5 cntS (.obj [("flag", .bool false)]) = false := by decide
+
+end Gs.Props.C02
+
+/-! ### the readings are ordered -/
+
+namespace Gs.Props.C02
+open Gs Gs.Schema
+
+/-- order on readings: `all` is the most severe, `any` the most permissive -/
+def Mode.le : Mode → Mode → Bool
+  | .all, _ => true
+  | _, .any => true
+  | .ref, .ref => true
+  | .relaxed, .relaxed => true
+  | _, _ => false
+
+theorem all_imp {α} (l : List α) (f g : α → Bool) (h : ∀ x ∈ l, f x = true → g x = true) : l.all f = true → l.all g = true := by
+  simp only [List.all_eq_true]
+  intro hf x hx
+  exact h x hx (hf x hx)
+
+theorem reqOk_mono (b1 b2 : Bool) (hb : b2 = true → b1 = true) (s : Schema) (kvs : List (String × J)) :
+    reqOk b1 s kvs = true → reqOk b2 s kvs = true := by
+  unfold reqOk
+  apply all_imp
+  intro r _
+  cases lookup kvs r with
+  | none => exact id
+  | some v =>
+    cases b2 with
+    | false => simp only [Bool.false_eq_true, if_false, Bool.and_true]; intro h; cases b1 <;> simp_all
+    | true => rw [hb rfl]; exact id
+
+end Gs.Props.C02
+
+namespace Gs.Props.C02
+open Gs Gs.Schema
+
+theorem propsOk_mono (b1 b2 : Bool) (hb : b1 = true → b2 = true) (r1 r2 : Schema → J → Bool) (s : Schema) (kvs : List (String × J))
+    (hr : ∀ kp ∈ s.props, ∀ v, r1 kp.2 v = true → r2 kp.2 v = true) :
+    propsOk b1 r1 s kvs = true → propsOk b2 r2 s kvs = true := by
+  unfold propsOk
+  apply all_imp
+  intro kp hkp
+  cases lookup kvs kp.1 with
+  | none => exact id
+  | some v =>
+    intro h
+    cases v
+    all_goals
+      dsimp only at h ⊢
+      split
+      · rfl
+      · rename_i c1
+        rw [if_neg c1] at h
+        split
+        · rfl
+        · rename_i c2
+          split at h
+          · rename_i c3
+            exfalso
+            apply c2
+            simp only [Bool.and_eq_true] at c3 ⊢
+            exact ⟨⟨hb c3.1.1, c3.1.2⟩, c3.2⟩
+          · exact hr kp hkp _ h
+
+theorem addlOk_mono (r1 r2 : Schema → J → Bool) (s : Schema) (kvs : List (String × J))
+    (hr : ∀ a, s.addl = some a → ∀ kv ∈ kvs, r1 a kv.2 = true → r2 a kv.2 = true) :
+    addlOk r1 s kvs = true → addlOk r2 s kvs = true := by
+  unfold addlOk
+  cases ha : s.addl with
+  | none => exact id
+  | some a =>
+    simp only
+    apply all_imp
+    intro kv hkv h
+    simp only [Bool.or_eq_true] at h ⊢
+    rcases h with h | h
+    · exact Or.inl h
+    · exact Or.inr (hr a ha kv hkv h)
+
+theorem mode_le_facts (m1 m2 : Mode) (h : Mode.le m1 m2 = true) :
+    (m2.rq = true → m1.rq = true) ∧ (m1.pr = true → m2.pr = true) ∧
+    (∀ s kvs, countOkM m1 s kvs = true → countOkM m2 s kvs = true) := by
+  cases m1 <;> cases m2 <;> simp [Mode.le] at h <;> simp [Mode.rq, Mode.pr, countOkM] <;> (intro s kvs; intro hh; simp_all)
+
+end Gs.Props.C02
+
+namespace Gs.Props.C02
+open Gs Gs.Schema
+
+/-- the readings are ordered: whatever a more severe reading accepts, a more permissive one accepts — in particular
+    validAll → valid → validAny and validAll → validSkip → validAny, for EVERY schema, definitions, fuel and instance -/
+theorem validG_mono (m1 m2 : Mode) (hm : Mode.le m1 m2 = true) (d : Defs) : ∀ (n : Nat) (s : Schema) (j : J),
+    validG m1 d n s j = true → validG m2 d n s j = true
+  | 0, _, _, h => by simp [validG] at h
+  | n+1, s, j, h => by
+    have ⟨hrq, hpr, hcnt⟩ := mode_le_facts m1 m2 hm
+    unfold validG at h ⊢
+    by_cases hr : s.ref ≠ ""
+    · rw [if_pos hr] at h ⊢
+      cases hl : lookup d s.ref with
+      | none => rw [hl] at h; cases h
+      | some t => rw [hl] at h; exact validG_mono m1 m2 hm d n t j h
+    · rw [if_neg hr] at h ⊢
+      have hall : s.allOf.all (fun a => validG m1 d n a j) = true → s.allOf.all (fun a => validG m2 d n a j) = true :=
+        all_imp s.allOf _ _ (fun a _ => validG_mono m1 m2 hm d n a j)
+      cases j with
+      | null => exact h
+      | bool b => simp only [Bool.and_eq_true] at h ⊢; exact ⟨h.1, hall h.2⟩
+      | num x => simp only [Bool.and_eq_true] at h ⊢; exact ⟨h.1, hall h.2⟩
+      | str x => simp only [Bool.and_eq_true] at h ⊢; exact ⟨h.1, hall h.2⟩
+      | arr l =>
+        simp only [Bool.and_eq_true] at h ⊢
+        refine ⟨⟨h.1.1, hall h.1.2⟩, ?_⟩
+        cases hi : s.items with
+        | none => rfl
+        | some it =>
+          have h2 := h.2
+          rw [hi] at h2
+          exact all_imp l _ _ (fun x _ => validG_mono m1 m2 hm d n it x) h2
+      | obj kvs =>
+        simp only [Bool.and_eq_true] at h ⊢
+        obtain ⟨⟨⟨⟨⟨h1, h2⟩, h3⟩, h4⟩, h5⟩, h6⟩ := h
+        refine ⟨⟨⟨⟨⟨h1, hall h2⟩, reqOk_mono m1.rq m2.rq hrq s kvs h3⟩, ?_⟩, ?_⟩, hcnt s kvs h6⟩
+        · exact propsOk_mono m1.pr m2.pr hpr _ _ s kvs (fun kp _ v => validG_mono m1 m2 hm d n kp.2 v) h4
+        · exact addlOk_mono _ _ s kvs (fun a _ kv _ => validG_mono m1 m2 hm d n a kv.2) h5
+
+theorem sandwich (d : Defs) (n : Nat) (s : Schema) (j : J) :
+    (validAll d n s j = true → valid d n s j = true) ∧ (valid d n s j = true → validAny d n s j = true) ∧
+    (validAll d n s j = true → validSkip d n s j = true) ∧ (validSkip d n s j = true → validAny d n s j = true) :=
+  ⟨validG_mono .all .ref rfl d n s j, validG_mono .ref .any rfl d n s j, validG_mono .all .relaxed rfl d n s j, validG_mono .relaxed .any rfl d n s j⟩
 
 end Gs.Props.C02
